@@ -239,6 +239,8 @@ class SpecMixin:
                              "heap_before": self.heap, "heap_after": self.heap}
                     return py(("event", dummy), "event")
                 return py(("event", self.trace[k]), "event")
+            if nm == "path_exists":  # os.path.exists (the name `exists` is the quantifier here)
+                return self.fs_exists(self.as_str(self.eval(n.args[0], frame)))
             if nm == "nkeys":
                 d = self.eval(n.args[0], frame)
                 return TV("int", self.hread("dklen", (self.as_addr(d),)))
